@@ -74,7 +74,6 @@ Definition disk_of (st : store) (e : eff) : list teff :=
   | ERm p => if mem_path p (dirs st) then [TRm p] else []
   | ERmEmpty p => if dir_empty p (dirs st) then [TRmEmpty p] else []
   | EVtTrunc o => [TVtTrunc o]
-  | EVtSet o [] => []   (* os.WriteFile with no byte left: no write call *)
   | EVtSet o l => [TVtSet o l]
   | EMemDel _ | EMMemDel _ => []
   | ESegTmp => [TSegTmp]
@@ -103,7 +102,8 @@ Fixpoint take_disk (a : nat) (es : list eff) (st : store) : list eff :=
     end
   end.
 
-Definition tag (i : nat) (l : list nat) : list nat := map (fun x => (1000 * i + x)%nat) l.
+(* scenario number and check number as one N (binary: no large unary numbers) *)
+Definition tag (i : N) (l : list nat) : list N := map (fun x => 1000 * i + N.of_nat x) l.
 
 Fixpoint check_trials (order : order_t) (hz : N) (orgs : list Z) (st : store) (es : list eff)
   (trials : list (nat * outcome * outcome)) (idx : nat) : list nat :=
